@@ -6,8 +6,12 @@ cd /repo || exit 2
 if [ -n "$(git status --porcelain)" ]; then echo "repo not clean"; exit 2; fi
 git apply "$PATCH" || { echo "patch does not apply"; exit 2; }
 cd /verif
+# the evidence file describes the unchanged tree: keep it aside while the patched tree is checked
+cp "evidence/$P.json" "/verif/.cache/evidence-$P.keep" 2>/dev/null
 ./check "$P" --tier "$TIER" > /tmp/try_seed.out 2>/tmp/try_seed.err; RC=$?
 git -C /repo checkout -- . ; git -C /repo clean -fdq
+cp "evidence/$P.json" "seeded/.last-evidence-$P.json" 2>/dev/null; mv "/verif/.cache/evidence-$P.keep" "evidence/$P.json" 2>/dev/null
+(cd lean && python3 ../tools/extract.py >/dev/null 2>&1)
 grep -E "^VIOLATION|^KNOWN" /tmp/try_seed.out | cut -c1-200
 tail -3 /tmp/try_seed.err | cut -c1-400
 echo "rc=$RC"
